@@ -773,3 +773,74 @@ func TestInterleavedDecoders(t *testing.T) {
 		})
 	})
 }
+
+// TestConcurrentDecoders: decoder tasks (NewDecoder + Read loop) run under the
+// cooperative scheduler and are parked at every Read of their chunked channel,
+// i.e. also in the middle of a record. Each is judged against its own stream.
+func TestConcurrentDecoders(t *testing.T) {
+	rapid.Check(t, func(t *rapid.T) {
+		core.Run(t, "mi/concurrent-decoders", func(c *core.Ctx) {
+			n := c.Int("ntasks", 2, 3)
+			type job struct {
+				s       setup
+				stream  []byte
+				digest  string
+				faulted bool
+				rr      readResult
+				created bool
+			}
+			jobs := make([]*job, n)
+			var tasks []func(yield func())
+			for i := 0; i < n; i++ {
+				j := &job{s: drawSetup(c, 64, 3)}
+				j.digest, j.stream = refmice.Encode(j.s.draft, j.s.payload, j.s.rs)
+				if c.Chance("faulty", 1, 3) {
+					j.stream, _ = applyChannelFault(c, j.s, j.stream)
+					j.faulted = true
+				}
+				j.rr.eofAtLen, j.rr.errAtLen = -1, -1
+				jobs[i] = j
+				chunk := c.PickInt("chunk", 1, 5, 33, 200)
+				bufSize := c.PickInt("caller.buf", 1, 3, 16, 64, 4096)
+				sr := c.NewReader(fmt.Sprintf("chan%d", i), j.stream, core.ReaderPlan{ErrAt: -1, Mode: 1, Chunk: chunk})
+				tasks = append(tasks, func(yield func()) {
+					sr.OnCall = yield
+					dec, err := j.s.enc.NewDecoder(sr, j.digest, 16384)
+					if err != nil {
+						return
+					}
+					j.created = true
+					buf := make([]byte, bufSize)
+					for step := 0; step < 100000; step++ {
+						k, err := dec.Read(buf)
+						j.rr.out = append(j.rr.out, buf[:k]...)
+						if err == io.EOF {
+							j.rr.eof, j.rr.eofAtLen = true, len(j.rr.out)
+							return
+						}
+						if err != nil {
+							return
+						}
+					}
+				})
+			}
+			sched, panics := c.RunTasks("sched", tasks)
+			c.Event("schedule %s", sched)
+			for i, p := range panics {
+				if p != nil && c.Oracle("C10", "C15", "C14") {
+					c.Violation("panic", "mice.decoder", "decoder task %d panicked under schedule %s: %v", i, sched, p)
+				}
+			}
+			if c.Oracle("C15", "C14") {
+				for i, j := range jobs {
+					checkSafety(c, "concurrent-decoder", j.rr, j.s.payload, true)
+					if !j.faulted && (!j.rr.eof || !bytes.Equal(j.rr.out, j.s.payload)) {
+						c.Violation("concurrent-roundtrip", "mice.decoder.Read", "task %d on an honest stream delivered %d of %d bytes (eof=%v) under schedule %s", i, len(j.rr.out), len(j.s.payload), j.rr.eof, sched)
+					}
+				}
+			}
+			c.Outcome("nt:done")
+			c.Sig("%s", sched)
+		})
+	})
+}
